@@ -66,6 +66,8 @@ package types
 //@   opt safety=assumed
 //@   ensures result == nil && called(Decode) && ret(Decode) == nil ==> ret(GetContractAddr) == "" || !blockedAddr(ret(GetContractAddr))
 //@   ensures result == nil && called(Decode) && ret(Decode) == nil ==> !blockedRaw(bytes(ret(GetPara)))
+//@   ensures called(GetRealExecName) && (bytes(ret(GetRealExecName)) == "evm" ==> called(Decode))
+//@   assert@call GetRealExecName: tx != nil ==> arg0 == tx.Execer
 
 // Fork gate: exactly ForkAccountBlacklist at the given height.
 //@ func CheckTxBlockedAccount [C31]
